@@ -14,6 +14,24 @@ CLAIMS = {
  "C16": dict(technique="Lean 4 proof (induction over byte strings; core functions as parameters) + correspondence check",
    text="Theorems for every core function: hexDecode(hexEncode b)=b; prefix stripping is the identity on encoder output and removes exactly one leading 0x; for exact-length well-formed hex in either spelling the verify/address/validity wrappers return exactly what the core returns on the decoded bytes; anything that does not decode gives false / empty string. Differential run on the real wrappers (both spellings, upper case, non-hex strings). Found and repaired: XMSS wrappers rejected 0x-prefixed input (fix: eb2db25).",
    note="Lean kernel; axioms propext, Classical.choice, Quot.sound; encoding/hex modelled; GopherJS object glue out of scope", ref="§7 C16"),
+ "C01": dict(technique="Lean 4 proof (kernel evaluation of the label-level BDS traversal per height, WOTS chain-completion theorem by induction, history-independence by induction over operation lists) + correspondence check",
+   text="Proved: for h ∈ {4,6,8,10} the traversal stores the true authentication path at every index and key generation returns the root (decide +kernel on the node-value-independent label model, so for every seed and hash function); WOTS: the verifier's chains reproduce the key-generation public key for every hash function, seed, index and digest (w ∈ {4,16,256}); every Sign/forward-SetIndex history reaches the same state (C08). Partial: the composition into Verify(Sign(m)) = true and heights above 10 rest on the correspondence run — whole-life signing at h=4 (3 hash functions, byte-exact against the model), all sign-jump-sign histories at h=4, sampled at h=6/8, and label-mode traversal dumps compared state-by-state with the Lean label model up to h=10 (12 in the thorough tier).",
+   note="Lean kernel; axioms propext, Classical.choice, Quot.sound; hash functions are parameters; C01_partial: end-to-end composition and h>10 not yet theorems", ref="§7 C01"),
+ "C02": dict(technique="Lean 4 proof (refinement of the key-object state machine to the counter automaton; induction over operation histories) + correspondence check",
+   text="Theorems for every key, every 32-byte-output hash function and every history of Sign / SetIndex(j ∈ uint32): the observable outputs (embedded index, refusal) equal those of the counter automaton idx ∈ [0,2^h]; emitted indices are strictly increasing and < 2^h; nothing is emitted after exhaustion; a refused operation returns the identical key object; public key, seed and descriptor never change. Differential run: random and adversarial histories on real keys (h=4,6,8; jumps around 255/256; exhaustion and beyond) with full-state snapshots before/after each refusal.",
+   note="Lean kernel; axioms propext, Classical.choice, Quot.sound; guards-before-writes in xmssFastUpdate is modelled and tied by snapshot comparison", ref="§7 C02"),
+ "C04": dict(technique="Lean 4 proof (acceptance decision of the verifier stated outright, for all byte strings) + correspondence check with exhaustive bit flips",
+   text="Theorem accept_iff: Verify returns true exactly when the descriptor names XMSS, a supported hash function and an even height 4..30, the signature has the exact size for that height, and the recomputed root equals all 32 root bytes; corollaries: unsupported hash ids, height/size mismatches, foreign signature types are never accepted; the verifier reads only the interpreted public-key bits. Bit-flip rejection is a hash property and is covered by exhaustive single-bit-flip runs on the real code (every bit of signature, message, public key). Found and repaired: universal forgery under hash ids 3..15 (fix: 509d77a).",
+   note="Lean kernel; axioms propext, Classical.choice, Quot.sound; collision resistance is not a theorem about this code", ref="§7 C04"),
+ "C06": dict(technique="Lean 4 executable full-Merkle-tree reference specification compared byte-for-byte with the implementation + Lean theorems on layout/seed expansion",
+   text="Spec/XmssRef.lean builds all 2^h leaves and the whole tree with no traversal state; the correspondence run compares PK and signatures (every index at h=4 for SHA2-256, SHAKE-128, SHAKE-256; more heights in the thorough tier; the suite's zero-seed known answers) between the real library and this reference in another language with its own SHA-256/Keccak. Theorems so far: signature layout/index field, seed expansion offsets, Verify = VerifyWithCustomWOTSParamW(16); the traversal theorems of C01 (h ≤ 10) give auth = true path at the label level. Partial: model = reference as a theorem is not finished.",
+   note="Lean kernel; axioms propext, Quot.sound; equality with the reference is established by differential execution, not yet by proof (C06_partial)", ref="§7 C06"),
+ "C08": dict(technique="Lean 4 proof (state after any history is a function of the index: induction over operation histories) + correspondence check",
+   text="Theorems for every key, hash function and history: the whole key object after any sequence of Sign/SetIndex calls equals keyAt(index) — the traversal state is fastForward^{min(i,2^h-1)} of the key-generation state — hence two objects from the same seed driven by any two histories ending at the same index are equal and all later outputs identical (rebuild_continues). The two Go copies of the traversal step (post-signature and fast-forward loop) are tied by skeleton digests and by comparing complete state snapshots of original and rebuilt real objects at every crash index (h=4 all, h=6/8 selected, reached by one jump / several / mixed).",
+   note="Lean kernel; axioms propext, Classical.choice, Quot.sound", ref="§7 C08"),
+ "C09": dict(technique="Lean 4 proof (composition of the descriptor, mnemonic and hex round-trip theorems) + correspondence check",
+   text="Theorems for every seed, even height ≤ 30, hash id and format < 16 and arbitrary hash functions: NewXMSSFromExtendedSeed(GetExtendedSeed(k)) = k and the mnemonic route likewise, as equalities of whole model keys; Dilithium FromHexSeed(GetHexSeed()[2:]) = FromMnemonic(GetMnemonic()) = FromSeed(seed). Differential run: real keys rebuilt from extended seed and mnemonic (PK, address, signatures compared), all heights × hash functions at the descriptor level, random-constructor keys rebuilt from GetSeed.",
+   note="Lean kernel; axioms propext, Classical.choice, Quot.sound; crypto/rand is a parameter", ref="§7 C09"),
 }
 
 checks = []
